@@ -55,5 +55,5 @@ Record model := { m_lib : lib; m_actor_ty : string; m_script : string; m_live : 
                   m_play : option play; m_methods : list lmethod;
                   m_live_attrs : list string; m_live_vis : string; m_live_fields : list (string * string);
                   m_traits : list string; m_script_fns : list string; m_roots : list string; m_unknown : list string }.
-Record family := { f_name : string; f_fields : list (string * string); f_ctor : option lmethod; f_methods : list lmethod;
-                   f_members : list model; f_unknown : list string }.
+Record family := { fa_name : string; fa_fields : list (string * string); fa_ctor : option lmethod; fa_methods : list lmethod;
+                   fa_members : list model; fa_unknown : list string }.
